@@ -804,6 +804,11 @@ impl<'a> HistoryRun<'a> {
         if r.chance(1, 3) {
             extra.push((12u8, b"host".to_vec()));
         }
+        if self.prop == Prop::C10 && r.chance(1, 3) {
+            // the client asks for a lease time of its own (option 51 in the request)
+            let v = *r.pick(&[0u32, 1, 60, 299, 300, 301, 3600, 86_400, 86_401, u32::MAX]);
+            extra.push((51u8, v.to_be_bytes().to_vec()));
+        }
         if c13 && r.chance(1, 4) {
             let code = *r.pick(&[51u8, 58, 59, 60, 77, 82, 116, 224]);
             let n = r.range(0, 9) as usize;
